@@ -40,6 +40,10 @@ pub enum Input {
 
 impl Parse for Input {
     fn parse(input: ParseStream) -> syn::Result<Self> {
+        // The item exactly as it came in. Re-printing a parsed item is not the identity: the invisible groups around
+        // `macro_rules!` fragments (`[u8; $e * 2]`) are lost on the way, and with them the meaning of the tokens.
+        let raw = input.cursor().token_stream();
+
         let attrs = input.call(syn::Attribute::parse_outer)?;
         let vis = input.parse()?;
 
@@ -78,6 +82,7 @@ impl Parse for Input {
                 fn_vis: vis,
                 fn_sig,
                 fn_body,
+                raw: Some(raw),
             }))
         }
     }
@@ -89,6 +94,8 @@ pub struct InputFn {
     pub fn_sig: syn::Signature,
     // don't try to parse fn_body, just pass through the tokens:
     pub fn_body: proc_macro2::TokenStream,
+    /// The whole function as it was written (for a function that is the annotated item itself)
+    pub raw: Option<proc_macro2::TokenStream>,
 }
 
 impl InputFn {
@@ -104,6 +111,8 @@ pub struct InputMod {
     pub ident: syn::Ident,
     pub brace_token: syn::token::Brace,
     pub items: Vec<ModItem>,
+    /// The module body as it was written
+    pub raw_body: TokenStream,
 }
 
 impl Parse for InputMod {
@@ -152,6 +161,7 @@ impl ToTokens for ModItem {
                     fn_vis,
                     fn_sig,
                     fn_body,
+                    ..
                 } = input_fn.as_ref();
                 for attr in fn_attrs {
                     push_tokens!(stream, attr);
@@ -181,6 +191,8 @@ pub struct InputImpl {
     #[expect(unused)]
     pub brace_token: syn::token::Brace,
     pub items: Vec<ImplItem>,
+    /// The body of the impl block as it was written
+    pub raw_body: TokenStream,
 }
 
 pub enum ImplItem {
@@ -207,6 +219,7 @@ impl ToTokens for ImplItem {
                     fn_vis,
                     fn_sig,
                     fn_body,
+                    ..
                 } = input_fn.as_ref();
                 for attr in fn_attrs {
                     push_tokens!(stream, attr);
@@ -247,6 +260,7 @@ fn parse_mod(
     if lookahead.peek(syn::token::Brace) {
         let content;
         let brace_token = syn::braced!(content in input);
+        let raw_body = content.cursor().token_stream();
 
         let mut items = vec![];
 
@@ -261,6 +275,7 @@ fn parse_mod(
             ident,
             brace_token,
             items,
+            raw_body,
         })
     } else {
         Err(lookahead.error())
@@ -290,6 +305,7 @@ impl Parse for ModItem {
                     fn_vis: vis,
                     fn_sig: sig,
                     fn_body,
+                    raw: None,
                 })))
             }
         } else {
@@ -313,6 +329,7 @@ fn parse_impl(
     if lookahead.peek(syn::token::Brace) {
         let content;
         let brace_token = syn::braced!(content in input);
+        let raw_body = content.cursor().token_stream();
 
         let mut items = vec![];
 
@@ -329,6 +346,7 @@ fn parse_impl(
             self_ty,
             brace_token,
             items,
+            raw_body,
         })
     } else {
         Err(lookahead.error())
@@ -358,6 +376,7 @@ impl Parse for ImplItem {
                     fn_vis: vis,
                     fn_sig: sig,
                     fn_body,
+                    raw: None,
                 })))
             }
         } else {
